@@ -25,7 +25,8 @@ for pid in ALL:
         "evidence_file": f"evidence/{pid}.json",
         "replay_cmd_template": f"./check {pid} --replay {{path}}",
         "engine": "lean4-proof+correspondence",
-        "level_claimed": {"category": c.get("category", "proof"), "text": c["text"], "design_ref": c["design_ref"]},
+        "level_claimed": {"category": ("proof" if str(c.get("category", "proof")).startswith("proof") else c["category"]),
+                          "text": c["text"], "design_ref": c["design_ref"]},
         "level_note": c["note"],
         "technique": c["technique"],
     })
@@ -51,5 +52,10 @@ m = {
     "not_applicable": na,
     "notes": "See DESIGN.md. Every check regenerates Gen/*.lean from /repo, rebuilds libopmcommon.a out of tree from the working tree, rebuilds the Lean theorems, audits axioms, runs the correspondence and the property-mode search.",
 }
+CATS = ["exploration", "fault_enumeration", "model_checking", "proof", "translation_validation", "other"]
+for c in checks:
+    assert c["level_claimed"]["category"] in CATS, c
+    for k in ("property_id", "quick_cmd", "evidence_file", "level_note"):
+        assert isinstance(c[k], str) and c[k], (c["property_id"], k)
 json.dump(m, open(os.path.join(os.path.dirname(HERE), "MANIFEST.json"), "w"), indent=1)
 print("MANIFEST.json:", len(checks), "checks,", len(na), "not_applicable")
